@@ -22,6 +22,7 @@ LENIENT = {'ignore', 'replace', 'surrogateescape', 'backslashreplace',
            'xmlcharrefreplace', 'namereplace'}
 ASCII = frozenset(range(128))
 DIGITS = frozenset(range(0x30, 0x3a))
+INT_MAX_STR_DIGITS = 4300       # sys.get_int_max_str_digits() default
 
 
 STD_CODECS = {'ascii', 'us-ascii', 'utf-8', 'utf8', 'latin-1', 'latin1',
@@ -148,6 +149,34 @@ class Escapes:
         out = frozenset().union(*sets)
         return out
 
+    def _group_width(self, f: Func, e: ast.AST):
+        """Upper bound on the length of M.group(k) (None = unknown)."""
+        e = strip_await(e)
+        if not (isinstance(e, ast.Call) and call_name(e) == 'group'
+                and isinstance(e.func, ast.Attribute)):
+            return None
+        okk, k = const_value(e.args[0]) if e.args else (True, 0)
+        if not okk or not isinstance(k, int):
+            return None
+        widths = []
+        for v in resolve_local(f, e.func.value):
+            if isinstance(v, ast.Call) and call_name(v) in ('match', 'search',
+                                                            'fullmatch'):
+                p = v.func.value
+                if isinstance(p, ast.Attribute) and f.cls is not None:
+                    a = f.cls.find_attr(p.attr)
+                    if a is not None and isinstance(a[1], ast.Call) and \
+                            a[1].args:
+                        ok, src = const_value(a[1].args[0])
+                        if ok:
+                            try:
+                                widths.append(rx.group_max_width(src, k))
+                            except Exception:
+                                return None
+        if not widths or any(w is None for w in widths):
+            return None
+        return max(widths)
+
     def prim_sites(self, f: Func):
         out = []
         for c in calls_in(f.node):
@@ -208,6 +237,13 @@ class Escapes:
                     continue
                 gs = self._group_set(f, a)
                 if nm == 'int' and gs is not None and gs <= DIGITS:
+                    # digits only -- but CPython refuses to convert more
+                    # than sys.get_int_max_str_digits() (4300) of them
+                    w = self._group_width(f, a)
+                    if w is not None and w <= INT_MAX_STR_DIGITS:
+                        continue
+                    out.append(('ValueError', c,
+                                'int(<unbounded digit run>)'))
                     continue
                 # int(<int-typed arithmetic>) is not a conversion from text
                 if isinstance(a, (ast.BinOp, ast.Attribute)) and \
